@@ -1,10 +1,12 @@
 import Proofs.SamplingLaws
 import Proofs.SpaceCheckers
+import Proofs.Proposal
 
 /-!
 # C10 — Sampling honours the declared support and prior of every hyperparameter
 
-Property theorems only.  Model: `Model/Sampling.lean` (+ `Model/Space.lean`), the code as it is on
+Property theorems only.  Model: `Model/Sampling.lean` (+ `Model/Space.lean`) and, for the stage between the
+sampler and the user (second half of this file), `Model/Proposal.lean`; the code as it is on
 `/repo` main (after the fixes 5b1cf8d, 1879100); lemmas: `Proofs/Sampling.lean`, `Proofs/SamplingLaws.lean`.
 
 A sampler is a function of the *draw* the random generator hands to it (`Draw.u q s`: a uniform
@@ -517,3 +519,133 @@ example : ([1, 2, 3, 4].map (fun k => (sampleDim (fun x => x) (fun x => x) (.int
     [some (.int 1), some (.int 2), some (.int 3), some (.int 4)] := by decide +kernel
 
 end DH.Space
+
+/-! ## The stage between the sampler and the user (`Model/Proposal.lean`)
+
+`Space.rvs` draws `n_points` candidates; `Optimizer._filter_duplicated` and `_ask_random_points` decide
+which of them the user receives, and in which order (`Optimizer.ask` / `CBO.ask` in the initial phase).
+The declared prior is honoured by what the user receives only if this stage depends on the candidates
+through their DRAWING ORDER alone: these theorems say that it does, and what law follows. -/
+
+namespace DH.Proposal
+
+variable {α : Type} [DecidableEq α]
+
+/-- **C10 (what is handed out, and in which order).**  For every history `sampled` and every list of
+candidates: the filtered list is a sub-list of the candidates *in drawing order*; with the filter on,
+if some candidate is not in the history, position `k` of the list (every `k`) is the first candidate
+— in drawing order — that is neither in the history nor among the `k` configurations before it, and
+if no candidate is new the candidates come back unfiltered; with the filter off they always do. -/
+theorem C10_handout_drawing_order (on : Bool) (sampled cands : List α) :
+    (filterDup on sampled cands).Sublist cands ∧
+    (on = false → filterDup on sampled cands = cands) ∧
+    (on = true → firstFresh sampled cands = none → filterDup on sampled cands = cands) ∧
+    (on = true → firstFresh sampled cands ≠ none →
+      ∀ k, (filterDup on sampled cands)[k]? =
+        firstFresh (sampled ++ (filterDup on sampled cands).take k) cands) := by
+  have key : on = true → firstFresh sampled cands ≠ none → filterDup on sampled cands = fresh sampled cands := by
+    intro ho hf
+    subst ho
+    simp only [filterDup, if_true, filter_dedup_eq_fresh]
+    have hne : (fresh sampled cands).isEmpty = false := by
+      rw [fresh_chain]
+      cases h : firstFresh sampled cands with
+      | none => exact absurd h hf
+      | some c => rfl
+    simp [hne]
+  have none' : on = true → firstFresh sampled cands = none → filterDup on sampled cands = cands := by
+    intro ho hf
+    subst ho
+    simp only [filterDup, if_true, filter_dedup_eq_fresh]
+    have : fresh sampled cands = [] := by rw [fresh_chain, hf]
+    simp [this]
+  refine ⟨?_, ?_, none', ?_⟩
+  · cases on with
+    | false => simp [filterDup]
+    | true =>
+      cases hf : firstFresh sampled cands with
+      | none => rw [none' rfl hf]
+      | some c => rw [key rfl (by simp [hf])]; exact fresh_sublist _ _
+  · intro ho; subst ho; simp [filterDup]
+  · intro ho hf k
+    rw [key ho hf]
+    exact fresh_getElem sampled cands k
+
+/-- **C10 (`Optimizer.ask` in the initial phase).**  With the duplicate filter on and a candidate that
+is not in the history: the single-point ask hands out exactly the first such candidate in drawing
+order and appends it to the history; the batch ask (`n ≥ 2`) hands out the first `n` entries of the
+list of `C10_handout_drawing_order` and appends them. -/
+theorem C10_ask_initial (sampled cands : List α) (x : α) (hx : firstFresh sampled cands = some x) :
+    ask true sampled cands none = .ok ([x], sampled ++ [x]) ∧
+    ask true sampled cands (some 1) = .ok ([x], sampled ++ [x]) ∧
+    ∀ n, 2 ≤ n → ask true sampled cands (some n) =
+      .ok ((fresh sampled cands).take n, sampled ++ (fresh sampled cands).take n) := by
+  have hfd : filterDup true sampled cands = fresh sampled cands := by
+    simp only [filterDup, if_true, filter_dedup_eq_fresh]
+    have : fresh sampled cands = x :: fresh (x :: sampled) cands := by rw [fresh_chain, hx]
+    simp [this]
+  have hhead : fresh sampled cands = x :: fresh (x :: sampled) cands := by rw [fresh_chain, hx]
+  refine ⟨?_, ?_, ?_⟩
+  · simp [ask, askRandomPoints, hfd, hhead]
+  · simp [ask, askRandomPoints, hfd, hhead]
+  · intro n hn
+    have h0 : (some n : Option Nat) ≠ some 0 := by simp; omega
+    have h1 : ¬ n ≤ 1 := by omega
+    simp [ask, askRandomPoints, hfd, h1, h0]
+
+/-- **C10 (law of the configuration handed out).**  Candidates drawn independently from a prior `p`
+over a duplicate-free support: the mass of the candidate sequences of length `n` on which `v` — a
+configuration of the support that is not in the history — is the first one handed out is
+`p v · geom q T n`, where `T` is the total weight of the support, `q` the weight of the part of it
+that is already in the history and `geom q T n = Σ_{i<n} q^i T^(n-1-i)` does NOT depend on `v`:
+the configuration handed out follows the declared prior restricted to the configurations not handed
+out before (for `T = 1`: probability `p v (1 - q^n) / (1 - q)`).  In particular two configurations of
+equal prior weight are handed out with equal probability, whatever `n_points` is. -/
+theorem C10_first_proposal_law (p : α → Rat) (support sampled : List α) (hnd : support.Nodup) (n : Nat)
+    (v : α) (hv : v ∈ support) (hvs : v ∉ sampled) :
+    massFirst p support sampled n v = p v * geom (totalIn p support sampled) (total p support) n ∧
+    (∀ w, w ∈ support → w ∉ sampled →
+      massFirst p support sampled n v * p w = massFirst p support sampled n w * p v) ∧
+    (∀ w, w ∈ support → w ∉ sampled → p v = p w →
+      massFirst p support sampled n v = massFirst p support sampled n w) := by
+  have e : ∀ w, w ∈ support → w ∉ sampled →
+      massFirst p support sampled n w = p w * geom (totalIn p support sampled) (total p support) n :=
+    fun w hw hws => massFirst_eq p support sampled n w hws (List.count_eq_one_of_mem hnd hw)
+  refine ⟨e v hv hvs, ?_, ?_⟩
+  · intro w hw hws
+    rw [e v hv hvs, e w hw hws]; ring
+  · intro w hw hws hp
+    rw [e v hv hvs, e w hw hws, hp]
+
+omit [DecidableEq α] in
+/-- all candidate sequences together have mass `T^n` (so for a normalized prior `massFirst` is a probability) -/
+theorem C10_candidate_mass (p : α → Rat) (support : List α) (n : Nat) :
+    massAll p support n = pw (total p support) n := massAll_eq p support n
+
+/-! ### non-vacuity and regression witnesses -/
+
+/-- history `[2]`, candidates drawn in the order 2, 1, 1, 3, 2, 0: handed out in drawing order 1, 3, 0 -/
+example : filterDup true [2] [2, 1, 1, 3, 2, 0] = [1, 3, 0] := by decide
+example : firstFresh [2] [2, 1, 1, 3, 2, 0] = some 1 := by decide
+example : ask true [2] [2, 1, 1, 3, 2, 0] none = .ok ([1], [2, 1]) := by decide
+example : ask true [2] [2, 1, 1, 3, 2, 0] (some 2) = .ok ([1, 3], [2, 1, 3]) := by decide
+/-- nothing new among the candidates: they come back unfiltered (the code's fall-back) -/
+example : filterDup true [1, 2] [2, 1, 1] = [2, 1, 1] := by decide
+/-- a history on one optimizer: `ask()`, `ask(2)`, `ask()` -/
+example : askMany true ([] : List Nat) [([3, 3, 1], none), ([3, 0, 1, 2], some 2), ([0, 1, 2, 2], none)] =
+    [.ok [3], .ok [0, 1], .ok [2]] := by decide
+/-- the hash-ordered filter of a seeded change (the survivors as a set, iterated in a fixed order —
+here increasing) hands out 0 where the drawing order hands out 1: not a refinement of the model -/
+example : (filterDup true [2] [2, 1, 1, 3, 2, 0]).head? ≠ some 0 := by decide
+/-- uniform prior 1/3 on `{0, 1, 2}`, history `[0]`, two candidates: 1 and 2 are each handed out first
+with mass `1/3 · (1/3 + 1) = 4/9`; the remaining `1/9` is the sequence `0, 0` -/
+example : massFirst (fun _ => (1 : Rat) / 3) [0, 1, 2] [0] 2 1 = 4 / 9 ∧
+    massFirst (fun _ => (1 : Rat) / 3) [0, 1, 2] [0] 2 2 = 4 / 9 ∧
+    geom (totalIn (fun _ => (1 : Rat) / 3) [0, 1, 2] [0]) (total (fun _ => (1 : Rat) / 3) [0, 1, 2]) 2 = 4 / 3 := by
+  decide +kernel
+/-- a weighted prior (1/2, 1/3, 1/6): after `0` was handed out, `1` is twice as likely as `2` -/
+example : massFirst (fun c => if c = 0 then (1 : Rat) / 2 else if c = 1 then 1 / 3 else 1 / 6) [0, 1, 2] [0] 3 1 =
+    2 * massFirst (fun c => if c = 0 then (1 : Rat) / 2 else if c = 1 then 1 / 3 else 1 / 6) [0, 1, 2] [0] 3 2 := by
+  decide +kernel
+
+end DH.Proposal
